@@ -22,7 +22,9 @@ def run(ctx):
     cases, meta = [], []
     bodies = ["'a'", "'ab'", "at least 1 'a'", "any", "digit", "'a' = x maybe 'b'", "line start any", "'zz'", "letter letter", "not 'a'"]
     repls = ["'X'", "'longer-than-the-match'", "''", "value value", "'<' x '>'", "matchNumber", "'a'"]
-    contents = ["", "a", "banana", "aaaa", "ab ab ab", "xyz", "a\nab\n", "aXa", "ba" * 40, "a" * 100 + "b"]
+    contents = ["", "a", "banana", "aaaa", "ab ab ab", "xyz", "a\nab\n", "aXa", "ba" * 40, "a" * 100 + "b", "a-5b-c-7-\n", "xabyabz", "-1--2ab-"]
+    # replacers made of variable references only: for a match in which none of them is bound the replacement is the empty string (the span disappears)
+    varonly = [("'-' maybe (digit = d)", "d"), ("'ab'", "nothing"), ("'a' maybe ('b' = x)", "x"), ("('a' = x) or 'b'", "x x"), ("'-' maybe ('-' = m) maybe (digit = d)", "m d")]
     n = 120 if quick else 1500
     for i in range(n):
         b = rng.choice(bodies)
@@ -34,6 +36,9 @@ def run(ctx):
         rp = rng.choice(repls)
         if "x" in rp.split() and "= x" not in b:
             rp = "'Q'"
+        if rng.random() < 0.15:
+            b, rp = rng.choice(varonly)
+            kind = "replace"
         src = "replace all %s with %s" % (b, rp) if kind == "replace" else "find all %s" % b
         mode = rng.choice(["NOTHING", "NEW", "OVERWRITE"])
         nfiles = rng.choice([1, 1, 2, 3])
